@@ -37,7 +37,8 @@ def scenario_second(transport, ka, T, R, kind, code, gap, delay):
     first = {"read": ["read", 399, 1], "write": ["write", 399, 5], "multi": ["multi", 399, "0001"]}[kind]
     sc["by_reg"] = {399: [["exc", 2, 0.0]], 400: [["exc", code, delay]]}
     sc["script"] = []
-    sc["tasks"] = [{"start": 0.0, "steps": [first, ["sleep", gap], sc["tasks"][0]["steps"][0]]}]
+    # gap None: request B is issued straight after A's rejection without yielding to the loop (as the ET/DT fallbacks do)
+    sc["tasks"] = [{"start": 0.0, "steps": [first] + ([["sleep", gap]] if gap is not None else []) + [sc["tasks"][0]["steps"][0]]}]
     sc["second"] = True
     return sc
 
@@ -133,7 +134,7 @@ def run_shard(spec):
                 for j in (0, R):
                     run_case(scenario(spec["transport"], spec["ka"], T, R, spec["kind"], code, j, 0.0, "public"), part)
             if code % 16 == 2 or code in (1, 3, 4, 6):
-                for gap, delay in ((0.5 * T, 0.8 * T), (0.25 * T, 0.9 * T), (0.0, 0.5 * T)):
+                for gap, delay in ((0.5 * T, 0.8 * T), (0.25 * T, 0.9 * T), (None, 0.5 * T), (None, 0.0)):
                     run_case(scenario_second(spec["transport"], spec["ka"], T, R, spec["kind"], code, gap, delay), part)
                 if spec["kind"] == "read":
                     # (read of 3 registers: RTU answer = 13 bytes, Modbus/TCP answer = 15 bytes; k stays below the full frame)
